@@ -631,7 +631,8 @@ def list_probe_case(case):
         return x
     for trial in range(int(case.get("trials", 600))):
         start = [rnd.randint(0, 9) for _ in range(rnd.randint(0, 6))]
-        tl = TraitList(list(start), item_validator=iv)
+        plain = rnd.random() < 0.3            # a bare TraitList: no item validator given
+        tl = TraitList(list(start)) if plain else TraitList(list(start), item_validator=iv)
         events = []
         tl.notifiers.append(lambda l, i, r, a: events.append((i, list(r), list(a))))
         model = list(start)
@@ -643,7 +644,8 @@ def list_probe_case(case):
         def sl():
             return slice(rnd.choice([None, idx()]), rnd.choice([None, idx()]), rnd.choice([None, 1, 2, 3, -1, -2]))
         items = lambda m: [rnd.choice([0, 5, 7, -1]) if rnd.random() < 0.15 else rnd.randint(10, 19) for _ in range(m)]
-        op = rnd.choice(["setint", "setslice", "delint", "delslice", "append", "extend", "iadd", "imul", "imul-odd", "insert", "pop", "remove", "clear", "reverse", "sort"])
+        op = rnd.choice(["setint", "setslice", "delint", "delslice", "append", "extend", "iadd", "imul", "imul-odd", "insert", "pop", "remove", "clear", "reverse", "sort",
+                         "extend-self", "iadd-self", "setslice-self"])
         arg = None
         if op == "setint":
             arg = (idx(), items(1)[0]); f = lambda L, v=None: L.__setitem__(arg[0], (v or (lambda x: x))(arg[1]))
@@ -657,6 +659,12 @@ def list_probe_case(case):
             arg = items(1)[0]; f = lambda L, v=None: L.append((v or (lambda x: x))(arg))
         elif op in ("extend", "iadd"):
             arg = items(rnd.randint(0, 3)); f = lambda L, v=None: L.extend([(v or (lambda x: x))(x) for x in arg])
+        elif op == "extend-self":
+            f = lambda L, v=None: L.extend(L)             # the argument is the list itself: list extends by a snapshot of it
+        elif op == "iadd-self":
+            f = lambda L, v=None: L.__iadd__(L)
+        elif op == "setslice-self":
+            arg = sl(); f = lambda L, v=None: L.__setitem__(arg, L)
         elif op == "imul":
             arg = rnd.randint(-1, 3); f = lambda L, v=None: L.__imul__(arg)
         elif op == "imul-odd":
@@ -675,7 +683,7 @@ def list_probe_case(case):
             f = lambda L, v=None: L.sort()
         ref_exc = got_exc = None
         try:
-            ref_res = f(model, iv)
+            ref_res = f(model, (lambda x: x) if plain else iv)
         except Exception as e:
             ref_exc, model = type(e), list(start)
         try:
@@ -727,7 +735,7 @@ def set_probe_case(case):
         events = []
         ts.notifiers.append(lambda s, r, a: events.append((set(r), set(a))))
         operand = lambda: rnd.choice([set, frozenset, list])(rnd.sample(universe, rnd.randint(0, 3)))
-        op = rnd.choice(["add", "discard", "remove", "pop", "clear", "update", "update2", "ior", "iand", "isub", "ixor", "difference_update", "intersection_update", "symmetric_difference_update"])
+        op = rnd.choice(["add", "discard", "remove", "pop", "clear", "update", "update2", "ior", "iand", "isub", "ixor", "difference_update", "intersection_update", "symmetric_difference_update", "difference_update2", "intersection_update2", "intersection_update0"])
         model, ref_exc, got_exc = set(start), None, None
         a1, a2 = operand(), operand()
         x = rnd.choice(universe)
@@ -737,7 +745,9 @@ def set_probe_case(case):
         f = {"add": lambda: ts.add(x), "discard": lambda: ts.discard(x), "remove": lambda: ts.remove(x), "pop": lambda: ts.pop(), "clear": lambda: ts.clear(),
              "update": lambda: ts.update(a1), "update2": lambda: ts.update(a1, a2), "ior": lambda: operator.ior(ts, a1), "iand": lambda: operator.iand(ts, a1),
              "isub": lambda: operator.isub(ts, a1), "ixor": lambda: operator.ixor(ts, a1), "difference_update": lambda: ts.difference_update(a1),
-             "intersection_update": lambda: ts.intersection_update(a1), "symmetric_difference_update": lambda: ts.symmetric_difference_update(a1)}[op]
+             "intersection_update": lambda: ts.intersection_update(a1), "symmetric_difference_update": lambda: ts.symmetric_difference_update(a1),
+             "difference_update2": lambda: ts.difference_update(a1, a2), "intersection_update2": lambda: ts.intersection_update(a1, a2),
+             "intersection_update0": lambda: ts.intersection_update()}[op]
         try:
             if op == "add":
                 model.add(iv(x))
@@ -770,6 +780,12 @@ def set_probe_case(case):
                 model.difference_update(a1)
             elif op == "intersection_update":
                 model.intersection_update(a1)
+            elif op == "difference_update2":
+                model.difference_update(a1, a2)
+            elif op == "intersection_update2":
+                model.intersection_update(a1, a2)
+            elif op == "intersection_update0":
+                model.intersection_update()
         except Exception as e:
             ref_exc, model = type(e), set(start)
         try:
@@ -777,7 +793,7 @@ def set_probe_case(case):
         except Exception as e:
             got_exc = type(e)
         after = set(ts)
-        w = "%s(%r%s) on %r (%s items)" % (op, x if op in ("add", "discard", "remove") else a1, ", %r" % (a2,) if op == "update2" else "", start, mode)
+        w = "%s(%r%s) on %r (%s items)" % (op, x if op in ("add", "discard", "remove") else a1, ", %r" % (a2,) if op.endswith("2") else "", start, mode)
         if got_exc is not ref_exc:
             violated.append("%s: raised %s, set on validated items %s" % (w, got_exc and got_exc.__name__, ref_exc and ref_exc.__name__))
         elif got_exc is not None:
